@@ -146,9 +146,22 @@ VolChecks(r) ==
             \cup (IF \E i \in 1..n : ~r.vpos[i] THEN {"a constructed cell has non-positive measure [C02]"} ELSE {})
        ELSE (IF \E i \in 1..n : r.mask[i] /\ ~r.vpos[i] THEN {"a constructed cell has non-positive measure [C02]"} ELSE {})
 
+\* ---- C16, second clause: generators added outside the safety ball of cell i leave the cell unchanged
+\* (VCell.FarIrrelevant is the design-level statement).  Each record: the cell before (0) and after (1) the
+\* rebuild with nadd extra generators at quantised distances dq, all strictly beyond the quantised radius srq.
+FarChecks(r) ==
+    LET bad(x) == \/ \E k \in 1..Len(x.dq) : x.dq[k] < x.srq            \* harness precondition
+        changed(x) == \/ ~Near(x.volq0, x.volq1, 2)
+                      \/ ~SameFaceSet(x.fset0, x.fset1)
+                      \/ \E k \in 1..Len(x.fset1) : x.fset1[k].o > r.n /\ x.fset1[k].aq >= 4
+                      \/ ~Near(x.srq, x.srq1, 2 + x.srq \div 1000000)
+    IN  (IF \E k \in 1..Len(r.far) : bad(r.far[k]) THEN {"harness placed an added generator inside the safety ball [C16 tool]"} ELSE {})
+   \cup (IF \E k \in 1..Len(r.far) : ~bad(r.far[k]) /\ changed(r.far[k])
+         THEN {"a cell (measure, face set or safety radius) changed although every added generator lies outside its safety ball [C16]"} ELSE {})
+
 Checks(r, f) ==
     RouteChecks(r, r.direct, r.hasmask, "direct") \cup RouteChecks(r, r.integ, TRUE, "integrator")
-    \cup IntegralChecks(r) \cup RecipChecks(r) \cup VolChecks(r)
+    \cup IntegralChecks(r) \cup RecipChecks(r) \cup VolChecks(r) \cup FarChecks(r)
     \cup (IF r.full THEN {} ELSE MaskChecks(r, f))
 
 TInit == l = 1 /\ full = [id |-> -1]
